@@ -592,7 +592,7 @@ Qed.
 Definition get_req (r : request) (m : string) : request :=
   {| meth := m; rpath := rpath r; h_depth := "0"; h_overwrite := ""; h_dest := DestAbsent; h_ctype := "";
      h_if_match := ""; h_if_none_match := ""; d_if_match := None; d_if_none_match := None;
-     body := ""; body_fails := false; pf := PfAllProp; stamp := stamp r; dir_tag := dir_tag r |}.
+     body := ""; body_fails := false; pf := PfAllProp; stamp := stamp r; dir_tag := dir_tag r; mime_tab := mime_tab r; sniffed := sniffed r |}.
 
 Theorem one_tag root sb r sb' resp :
   meth r = "PUT"%string -> serve root sb r = (sb', resp) -> (status resp < 300)%N ->
@@ -675,6 +675,34 @@ Theorem head_reports_stored root sb r s c m :
 Proof.
   intros Hm Hs Hg. rewrite (serve_head _ _ _ Hm). unfold do_get, stat.
   rewrite (segs_of_ok _ _ Hs). unfold hp. rewrite Hg. cbn. auto.
+Qed.
+
+(** The media type GET and HEAD announce: the type registered for the extension of the
+    stored name, else the type detected from the content. *)
+Theorem get_head_content_type root sb r s c m :
+  (meth r = "GET"%string \/ meth r = "HEAD"%string) ->
+  local_segs (rpath r) = Ok s -> geto sb (root ++ s) = Some (File c m) ->
+  r_ctype (snd (serve root sb r)) = spec_content_type root r (root ++ s).
+Proof.
+  intros Hm Hs Hg. unfold spec_content_type. rewrite strip_prefix_app.
+  destruct Hm as [Hm|Hm]; [rewrite (serve_get _ _ _ Hm)|rewrite (serve_head _ _ _ Hm)];
+    unfold do_get, stat; rewrite (segs_of_ok _ _ Hs); unfold hp; rewrite Hg; reflexivity.
+Qed.
+
+(** A file with a registered extension is announced with that type whatever it holds;
+    one without is announced as what its first bytes look like. *)
+Corollary content_type_cases root sb r s c m :
+  (meth r = "GET"%string \/ meth r = "HEAD"%string) ->
+  local_segs (rpath r) = Ok s -> geto sb (root ++ s) = Some (File c m) ->
+  let t := registered_type r (external_path s) in
+  (t <> ""%string -> r_ctype (snd (serve root sb r)) = t) /\
+  (t = ""%string -> registered_type r (rpath r) = ""%string -> r_ctype (snd (serve root sb r)) = sniffed r).
+Proof.
+  intros Hm Hs Hg. cbn zeta. rewrite (get_head_content_type _ _ _ _ _ _ Hm Hs Hg).
+  unfold spec_content_type. rewrite strip_prefix_app. split.
+  - intros Ht. destruct (String.eqb (registered_type r (external_path s)) "") eqn:E; [|reflexivity].
+    apply String.eqb_eq in E. congruence.
+  - intros Ht Hr. rewrite Ht, Hr. reflexivity.
 Qed.
 
 Theorem options_reports_kind root sb r s :
